@@ -134,6 +134,8 @@ func handleError(t testingT, err any) {
 type syncRegistry struct {
 	running map[string]map[string]int
 	cleanup map[string]map[string]int
+	// highest occurrence a test reached in any of its executions (go test -count)
+	highest map[string]map[string]int
 	sync.Mutex
 }
 
@@ -145,11 +147,15 @@ func (s *syncRegistry) getTestID(snapPath, testName string) string {
 	if _, exists := s.running[snapPath]; !exists {
 		s.running[snapPath] = make(map[string]int)
 		s.cleanup[snapPath] = make(map[string]int)
+		s.highest[snapPath] = make(map[string]int)
 	}
 
 	s.running[snapPath][testName]++
 	s.cleanup[snapPath][testName]++
 	c := s.running[snapPath][testName]
+	if c > s.highest[snapPath][testName] {
+		s.highest[snapPath][testName] = c
+	}
 	s.Unlock()
 
 	return fmt.Sprintf("[%s - %d]", testName, c)
@@ -166,6 +172,7 @@ func newRegistry() *syncRegistry {
 	return &syncRegistry{
 		running: make(map[string]map[string]int),
 		cleanup: make(map[string]map[string]int),
+		highest: make(map[string]map[string]int),
 		Mutex:   sync.Mutex{},
 	}
 }
@@ -173,6 +180,8 @@ func newRegistry() *syncRegistry {
 type syncStandaloneRegistry struct {
 	running map[string]int
 	cleanup map[string]int
+	// highest occurrence reached in any execution (go test -count)
+	highest map[string]int
 	sync.Mutex
 }
 
@@ -180,6 +189,7 @@ func newStandaloneRegistry() *syncStandaloneRegistry {
 	return &syncStandaloneRegistry{
 		running: make(map[string]int),
 		cleanup: make(map[string]int),
+		highest: make(map[string]int),
 		Mutex:   sync.Mutex{},
 	}
 }
@@ -190,6 +200,9 @@ func (s *syncStandaloneRegistry) getTestID(snapPath, snapPathRel string) (string
 	s.running[snapPath]++
 	s.cleanup[snapPath]++
 	c := s.running[snapPath]
+	if c > s.highest[snapPath] {
+		s.highest[snapPath] = c
+	}
 	s.Unlock()
 
 	return standaloneOccurrenceFMT(snapPath, c), standaloneOccurrenceFMT(snapPathRel, c)
